@@ -250,6 +250,8 @@ def run(rep: common.Report):
         b.error = repr(e)
     b.seconds = time.time() - t0
     rep.bounded.append(b)
+    from vc.static import state as _state
+    rep.add(_state.obligation(PID, ('prop', 'caselessdict'), Obligation, PROVED, UNDECIDED))
     rep.explanation = __doc__ + "\nLevel 'other': order/table/shape obligations are static, the text lemma is decided by fstc on a bounded shape, part codecs are " \
         "enumerated; the per-part dispatch inside to_ical/from_ical and the expander clause are bounded."
 
